@@ -26,7 +26,7 @@ func c10(c *Ctx) {
 	p, r := c.Prog, c.R
 	r.Explain = "BITS: FU-A indicator/header bytes emitted by the payloader, the header rebuilt by the depacketizer, the " +
 		"S/E tests and IsPartitionHead agree with the RFC 6184 5.3/5.7/5.8 tables for all unit headers; BOUNDS: payloader " +
-		"and depacketizer never panic, >= 2 FU-A fragments. Reassembly equality over NAL sequences is not decided."
+		"and depacketizer never panic, >= 2 FU-A fragments. Reassembly equality over NAL sequences is not decided. CTR: at least two FU-A fragments, S/E set only on and on every first/last fragment, STAP-A size prefixes equal the length of the unit that follows."
 	n := fragmentLayout(c, "codecs.(*H264Payloader).Payload", h264FUA, "FU-A", "", 1)
 	// reader
 	pb := "codecs.(*H264Packet).parseBody"
@@ -377,7 +377,7 @@ func c12(c *Ctx) {
 	r.Explain = "BITS: descriptor bytes written by both VP9Payloader modes and the fields decoded by VP9Packet (flag byte, " +
 		"picture id forms, layer indices, TL0PICIDX, SS header) agree with the VP9 RTP payload 4.2 table; picture-id mask and " +
 		"wrap; BOUNDS: descriptor and uncompressed-header parsers never read outside the input. Concatenation equality and " +
-		"the SS width/height values are not decided."
+		"the SS width/height values are not decided. BITS.vp9hdr: the uncompressed-header parser against the syntax table for twenty predicate combinations (case-split abstract interpretation)."
 	n := fragmentLayout(c, "codecs.(*VP9Payloader).payloadFlexible", vp9Flex, "VP9 flexible descriptor", "recv.", 1)
 	nf := append([]string{}, vp9NonFlex...)
 	nf[0] = "1 $h.NonKeyFrame.0 0 0 _ _ _ 1"
